@@ -229,7 +229,9 @@ func c07Build(mem, svc int) *c07World {
 		Extrinsics:       [][]types.ExtrinsicSpec{{{Hash: c07H2, Len: 4}}},
 	}
 	if svc == 1 || svc == 3 || svc == 2 {
-		inner := hcNewMem([]hcPageSpec{{0x20, MemoryReadWrite, 9}, {0x21, MemoryReadOnly, 10}})
+		// inner page pattern of machine 0:  0x20 W, 0x21 R, 0x22 ∅, 0x23 R, 0x24 W, 0x25 ∅  — so that
+		// `pages` ranges meet [R,∅], [W,∅], [W,R,∅], [R,W,∅], [∅,R] and [∅,W]
+		inner := hcNewMem([]hcPageSpec{{0x20, MemoryReadWrite, 9}, {0x21, MemoryReadOnly, 10}, {0x23, MemoryReadOnly, 11}, {0x24, MemoryReadWrite, 12}})
 		ra.IntegratedPVMMap[0] = IntegratedPVMType{ProgramCode: ProgramCode(c07InnerBlob()), Memory: *inner, PC: 0}
 	}
 	if svc == 1 || svc == 3 {
@@ -355,7 +357,7 @@ func c07Rows(r *vlib.Run) []c07Row {
 	outL := vlib.Pick(r, []uint64{0, 40, c07Max}, []uint64{0, 1, 40, c07Max})
 	idxL := vlib.Pick(r, []uint64{0, 1}, []uint64{0, 1, c07Max})
 	nL := []uint64{0, 1, 5, c07Max}
-	innerP := []uint64{c07InnerRW, 0x20FF0, c07InnerRO, 0x22000, 1<<32 - 8, c07Max - 3}
+	innerP := []uint64{c07InnerRW, 0x20FF0, c07InnerRO, 0x21FF0, 0x22000, 0x23FF0, 0x24FF0, 1<<32 - 8, c07Max - 3}
 	innerLen := []uint64{0, 1, 32, 4097, c07Max}
 	blobLen := uint64(len(c07InnerBlob()))
 	in32 := func(reg int) func(rg *Registers) [][2]uint64 {
@@ -403,7 +405,7 @@ func c07Rows(r *vlib.Run) []c07Row {
 			In:    func(rg *Registers) [][2]uint64 { return [][2]uint64{{rg[8], rg[10]}} },
 			Allow: c07Re(`^args\.RefineArgs\.IntegratedPVMMap\[\d+\]\.Memory\.Pages\[\d+\]\*\.Value$`)},
 		{Op: PagesOp, Name: "pages", Res: []int{7}, SidReg: -1,
-			Axes:  []c07Axis{{7, nL}, {8, []uint64{0, 15, 16, 0x20, 0xFFFFF, 0x100000, c07Max}}, {9, []uint64{0, 1, 2, 1 << 20, c07Max - 14, c07Max}}, {10, []uint64{0, 1, 2, 3, 4, 5}}},
+			Axes:  []c07Axis{{7, nL}, {8, []uint64{0, 15, 16, 0x1F, 0x20, 0x21, 0x22, 0x23, 0x24, 0xFFFFF, 0x100000, c07Max}}, {9, []uint64{0, 1, 2, 3, 1 << 20, c07Max - 14, c07Max}}, {10, []uint64{0, 1, 2, 3, 4, 5}}},
 			Allow: c07Re(`^args\.RefineArgs\.IntegratedPVMMap\[\d+\]\.Memory\.Pages\[`)},
 		{Op: InvokeOp, Name: "invoke", Res: []int{7, 8}, SidReg: -1,
 			Axes: []c07Axis{{7, nL}, {8, P(c07InvBlk)}},
